@@ -305,3 +305,13 @@ func Recv[T any](ch chan T) T {
 	WaitRecv(ch)
 	return <-ch
 }
+
+// DBPoint is the scheduling point before a call on an (uninstrumented) database handle; the call itself
+// then runs as one atomic step. All calls on one handle are mutually dependent.
+func DBPoint[T any](db T) T {
+	if rt.Load() == nil {
+		return db
+	}
+	do(request{kind: OpTouch, obj: reflect.ValueOf(db).Pointer()})
+	return db
+}
